@@ -19,7 +19,7 @@ pub struct Input {
     pub enc: Option<Encoded>,
 }
 
-pub const CLASSES: &[&str] = &["canonical", "dialect", "mutant", "truncated", "long_field", "arbitrary", "header_shaped", "near_max_unterminated"];
+pub const CLASSES: &[&str] = &["canonical", "dialect", "mutant", "truncated", "long_field", "arbitrary", "header_shaped", "near_max_unterminated", "near_miss_dense", "far_pattern"];
 
 /// A verbose message of (nearly) the largest declarable length made of k equally long string
 /// arguments (plus a raw filler), with every string terminator replaced by a letter: the parser
@@ -209,7 +209,7 @@ pub fn gen_input(r: &mut Rng, class: Option<usize>, light: bool, sys: Option<u64
 }
 
 fn gen_input_any_capacity(r: &mut Rng, class: Option<usize>, light: bool, sys: Option<u64>) -> Input {
-    let c = class.unwrap_or_else(|| if !light && r.chance(1, 80) { 7 } else { match r.below(20) {
+    let c = class.unwrap_or_else(|| if !light && r.chance(1, 80) { 7 } else if r.chance(1, 250) { 8 } else if !light && r.chance(1, 1500) { 9 } else { match r.below(20) {
         0..=3 => 0,
         4..=6 => 1,
         7..=13 => 2,
@@ -219,6 +219,65 @@ fn gen_input_any_capacity(r: &mut Rng, class: Option<usize>, light: bool, sys: O
         _ => 6,
     }});
     match c {
+        8 | 9 => {
+            // 8: thousands of near misses of the storage-header pattern ("DLT" + another byte, "DL", "D" runs) in
+            //    front of (or without) a real message: work or stack depth per near miss shows here
+            // 9: the first pattern lies 10-18 MiB into the buffer (also: exactly around the 10 MiB mark)
+            let m = base_msg(r, true, None);
+            let mut m = m;
+            if m.storage_header.is_none() {
+                m.storage_header = Some(dlt_core::dlt::StorageHeader { timestamp: dlt_core::dlt::DltTimeStamp { seconds: r.next() as u32, microseconds: (r.next() % 1_000_000) as u32 }, ecu_id: "ECU".into() });
+            }
+            let e = ref_encode(&m);
+            let n = if c == 8 {
+                if light { r.range(200, 4000) as usize } else { r.range(20_000, 2_000_000) as usize }
+            } else {
+                let ten = 10 * 1024 * 1024;
+                match r.below(4) {
+                    0 => ten - r.range(0, 4) as usize,
+                    1 => ten + r.range(0, 40) as usize,
+                    _ => r.range(ten as u64, 18 * 1024 * 1024) as usize,
+                }
+            };
+            let mut bytes: Vec<u8> = if c == 8 {
+                let unit: &[u8] = match r.below(5) {
+                    0 => b"DLT\x02",
+                    1 => b"DLT",
+                    2 => b"DLT\x00",
+                    3 => b"DLTD",
+                    _ => b"DLT\x01".split_at(3).0,
+                };
+                unit.iter().cycle().take(n).cloned().collect()
+            } else {
+                mutate::gen_regular_junk(r, n)
+            };
+            // no accidental pattern inside the junk
+            let mut i = 0;
+            while i + 4 <= bytes.len() {
+                if bytes[i..i + 4] == [0x44, 0x4C, 0x54, 0x01] {
+                    bytes[i + 3] = 0x02;
+                }
+                i += 1;
+            }
+            let with_message = c == 9 || r.chance(2, 3);
+            if with_message {
+                // the junk must not end in a way that forms the pattern together with the message start
+                if let Some(l) = bytes.last_mut() {
+                    *l = 0x7e;
+                }
+                bytes.extend_from_slice(&e.bytes);
+                let t = r.size(4, 20);
+                bytes.extend(r.bytes(t));
+            }
+            Input {
+                bytes,
+                wsh: true,
+                class: if c == 8 { "near_miss_dense" } else { "far_pattern" },
+                ops: vec![],
+                base: None,
+                enc: None,
+            }
+        }
         7 => {
             let (m, e, bytes) = near_max_unterminated(r);
             Input {
